@@ -1403,6 +1403,10 @@ def correspond(ctx):
     corr_generalized_contact(rng, cases, ctx.budget(3, 14), stats)
     corr_spring_positional(rng, cases, ctx.budget(2, 12), stats, spec_failures)
     dis = cases.run()
+    import corr_C06_solver          # deepening: jaxopt.ProjectedGradient as configured by constraint.force vs the Lean model pgSolve
+    n_solver, dis_solver = corr_C06_solver.solver_cases(ctx)
+    dis += dis_solver
+    stats['solver_model'] = dict(cases=n_solver, **corr_C06_solver.STATS)
   except BaseException:
     pool.shutdown(cancel_futures=True)
     raise
